@@ -22,7 +22,7 @@ PATTERNS = [
 
 QUICK = [r'^c09_bv_(iter|one_iter|zero_iter)_nth_l5$', r'^c09_bv_out_of_range_l65$', r'^c09_bv_pred_succ_beyond_l65$', r'^c01_rank_l65$', r'^c17_(select_word|rw_int|masks)$',
          r'^c05_raw_(set_int|pop_int)_l65$', r'^c13_badoff_(i3|v3|b9|r65)', r'^c09_access_iter_nth_w13_n5$', r'^c04_core_map_up_with_n3_max1$', r'^c04_wm_select_n3_max1_fw1$',
-         r'^c10_bv_iter_l70_k4$', r'^c01_select_short_l2$']
+         r'^c10_bv_iter_l5_k4$', r'^c01_select_short_l2$']
 
 
 def tag(insts):
